@@ -848,4 +848,139 @@ Proof.
     destruct (std_replay_RS _ _ _ _ _ _ _ _ _ Hrs Hu E1) as [Hrs1 Hu1]. eapply IH; eassumption.
 Qed.
 
+(* ================================================================ Part 3 *)
+Lemma tbl_vars_map t ids : forall vs, tbl_vars t ids = Some vs ->
+  vs = map (fun i => match tbl_var t i with Some v => v | None => 1 end) ids.
+Proof.
+  induction ids as [|i r IH]; intros vs H; cbn [tbl_vars map] in *.
+  - injection H as <-. reflexivity.
+  - destruct (tbl_var t i) as [v|]; [|discriminate]. destruct (tbl_vars t r) as [l|]; [|discriminate].
+    injection H as <-. f_equal. apply IH. reflexivity.
+Qed.
+
+(* update_attacks_to_constraints when enabled: the old selector (if any) is retired by a unit clause,
+   a fresh selector is allocated, the group for the CURRENT attackers is added under it *)
+Lemma update_attacks_to_run (af : fw) e id ps e2 ps' :
+  e_upd e = true -> update_attacks_to L af e id ps = Done e2 ps' ->
+  exists sn, e_sem e2 = e_sem e /\ e_upd e2 = true /\
+    (forall a, tbl_var (e_a2v e2) a = tbl_var (e_a2v e) a) /\
+    (forall a, a <> id -> tbl_var (e_a2s e2) a = tbl_var (e_a2s e) a) /\
+    tbl_var (e_a2s e2) id = Some sn /\
+    nv (sess_adds (sess ps) (retire_units (tbl_var (e_a2s e) id))) < sn /\ length (e_vars e) <= sn /\
+    has af id = true /\
+    sess ps' = sess_adds (sess ps) (retire_units (tbl_var (e_a2s e) id) ++
+                                    grp e2 id (map fst (iter_attacks_to L af id))).
+Proof.
+  intros Hu E. unfold update_attacks_to in E. rewrite Hu in E. cbn [negb] in E.
+  destruct (nth_error (e_a2s e) id) as [os|] eqn:En; [|discriminate E].
+  pose proof (nth_error_lt _ _ _ En) as Hid. rewrite (tbl_var_of_nth_error _ _ _ En).
+  apply bind_Done in E. destruct E as (e1 & ps1 & E1 & E2).
+  assert (H1 : e_sem e1 = e_sem e /\ e_upd e1 = true /\ e_a2v e1 = e_a2v e /\
+               (forall a, a <> id -> tbl_var (e_a2s e1) a = tbl_var (e_a2s e) a) /\
+               length (e_a2s e1) = length (e_a2s e) /\
+               length (e_vars e1) = length (e_vars e) /\ sess ps1 = sess_adds (sess ps) (retire_units os)).
+  { destruct os as [s|].
+    - apply bind_Done in E1. destruct E1 as (e0 & ps0 & E0 & E1).
+      pose proof (remove_selector_sess _ _ _ _ _ E0) as Hs0.
+      destruct (remove_selector_spec _ _ _ _ _ E0) as (p & _ & ->).
+      apply ret_Done in E1. destruct E1 as [<- <-]. cbn [enc_with e_sem e_upd e_a2v e_a2s e_vars].
+      rewrite !length_set_nth. repeat split; auto. intros a Ha. apply tbl_var_set_neq. congruence.
+    - apply ret_Done in E1. destruct E1 as [<- <-]. repeat split; auto. }
+  destruct H1 as (K1 & K2 & K3 & K4 & K5 & K6 & K7).
+  apply bind_Done in E2. destruct E2 as ([vars sn] & ps2 & E2 & E3).
+  destruct (new_solver_var_fresh _ _ _ _ _ _ E2) as [Hf Hs2].
+  pose proof (new_solver_var_spec _ _ _ _ _ E2) as (A1 & _). cbn [fst snd] in A1.
+  cbv beta iota zeta in E3.
+  destruct (negb (has af id)) eqn:Eh; [discriminate E3|]. apply negb_false_iff in Eh.
+  set (e2' := enc_with e1 (e_a2v e1) (set_nth id (Some sn) (e_a2s e1)) vars (e_assum e1 ++ [zlit sn])) in *.
+  destruct (tbl_var (e_a2v e2') id) as [tv|] eqn:Etv; [|discriminate E3].
+  destruct (tbl_vars (e_a2v e2') (map fst (iter_attacks_to L af id))) as [avs|] eqn:Eavs; [|discriminate E3].
+  apply bind_Done in E3. destruct E3 as (u & ps3 & E3 & E4). apply add_clauses_sess in E3.
+  apply ret_Done in E4. destruct E4 as [<- <-].
+  assert (Hsn : tbl_var (e_a2s e2') id = Some sn).
+  { unfold e2'. cbn [enc_with e_a2s]. apply tbl_var_set_eq. lia. }
+  exists sn. split; [exact K1|]. split; [exact K2|].
+  split; [intros a; unfold e2'; cbn [enc_with e_a2v]; rewrite K3; reflexivity|].
+  split; [intros a Ha; unfold e2'; cbn [enc_with e_a2s]; rewrite tbl_var_set_neq by congruence; apply K4, Ha|].
+  split; [exact Hsn|]. split; [rewrite <- K7; exact Hf|]. split; [lia|]. split; [exact Eh|].
+  rewrite E3, Hs2, K7. unfold sess_adds. rewrite fold_left_app. f_equal.
+  unfold grp. rewrite (svar_some e2' id sn Hsn), (avar_some e2' id tv Etv).
+  rewrite (tbl_vars_map _ _ _ Eavs). reflexivity.
+Qed.
+
+Lemma update_attacks_to_RS (af : fw) e id rest ps e2 ps' :
+  RS af e (id :: rest) (sess ps) -> e_upd e = true ->
+  update_attacks_to L af e id ps = Done e2 ps' ->
+  RS af e2 rest (sess ps') /\ e_upd e2 = true.
+Proof.
+  intros [Ht Hinv Hz Hbd (dv & atk & Hc)] Hu E.
+  destruct (update_attacks_to_ok L af e id Ht _ _ _ E) as (Ht' & _ & _).
+  pose proof (update_attacks_to_vz L af e id Hz _ _ _ E) as Hz'.
+  destruct (update_attacks_to_run af e id ps e2 ps' Hu E) as
+    (sn & Hsem & Hu2 & HV & HS & HSid & Hfresh & Hlen & Hlive & Hse).
+  set (os := tbl_var (e_a2s e) id) in *. set (bs := map fst (iter_attacks_to L af id)) in *.
+  destruct (nv_adds (retire_units os) (sess ps)) as [N1 N2].
+  destruct (nv_adds (retire_units os ++ grp e2 id bs) (sess ps)) as [N3 N4].
+  split; [|exact Hu2]. split; auto.
+  - rewrite Hse. apply sbounded_adds, Hbd.
+  - exists (retire_dv dv os), (fun a => if Nat.eqb a id then bs else atk a).
+    apply (cinv_reencode af e e2 rest (se_cl (sess ps)) _ (nv (sess ps)) _ dv atk id sn Hc).
+    + apply tables_ok_split. exact Ht.
+    + exact Hinv.
+    + exact Hlive.
+    + exact Hsem.
+    + exact HV.
+    + exact HS.
+    + exact HSid.
+    + lia.
+    + rewrite Hse. exact N3.
+    + intros s Hs. split.
+      * rewrite Hse. pose proof (N4 [znlit s]) as Hn. rewrite clause_max_single, lit_var_znlit in Hn.
+        apply Hn. apply in_or_app. left. fold os in Hs. rewrite Hs. left. reflexivity.
+      * destruct (tables_distinct L af e (proj2 (tables_ok_split L af e) Ht)) as (_ & _ & _ & _ & _ & _ & D7).
+        specialize (D7 id s Hs). lia.
+    + rewrite Hse, se_cl_adds. reflexivity.
+Qed.
+
+Lemma reencode_loop_RS (af : fw) ids : forall e ps e' ps',
+  RS af e ids (sess ps) -> e_upd e = true ->
+  fold_m (update_attacks_to L af) ids e ps = Done e' ps' ->
+  RS af e' [] (sess ps') /\ e_upd e' = true.
+Proof.
+  induction ids as [|id r IH]; intros e ps e' ps' Hrs Hu E; cbn [fold_m] in E.
+  - apply ret_Done in E. destruct E as [<- <-]. auto.
+  - apply bind_Done in E. destruct E as (e1 & ps1 & E1 & E2).
+    destruct (update_attacks_to_RS af e id r ps e1 ps1 Hrs Hu E1) as [Hrs1 Hu1]. eapply IH; eassumption.
+Qed.
+
+Lemma RS_enable (af : fw) e U se b : RS af e U se -> RS af (enc_enable e b) U se.
+Proof.
+  intros [Ht Hinv Hz Hbd (dv & atk & Hc)]. split; [apply tabs_enable; exact Ht|exact Hinv|exact Hz|exact Hbd|].
+  exists dv, atk. destruct Hc as [H1 H2 H3 H4 H5 H6 H7]. split; assumption.
+Qed.
+
+(* update_encoding of the buffered standard encoder: from a consistent state, through the replay of the
+   pending events with the re-encoding deferred, back to a consistent state for the new framework *)
+Lemma update_encoding_RS (af : fw) (b : dbuf L) e ps af' b' ps' :
+  b_enc L b = XStd e -> RS af e [] (sess ps) -> e_upd e = false ->
+  update_encoding L leqb af b ps = Done (af', b') ps' ->
+  exists e', b_enc L b' = XStd e' /\ RS af' e' [] (sess ps') /\ e_upd e' = false.
+Proof.
+  intros He Hrs Hu E. unfold update_encoding in E. rewrite He in E.
+  apply bind_Done in E. destruct E as ([[af1 e1] U1] & ps1 & E1 & E2).
+  destruct (fold_std_replay_RS _ _ _ _ _ _ _ _ _ Hrs Hu E1) as [Hrs1 Hu1].
+  apply bind_Done in E2. destruct E2 as (e2 & ps2 & E2 & E3).
+  apply ret_Done in E3. destruct E3 as [E3 <-]. apply pair_equal_spec in E3. destruct E3 as [<- <-].
+  assert (Hrs2 : RS af1 (enc_enable e1 true) (filter (has_argument_with_id L af1) U1) (sess ps1)).
+  { apply RS_enable. destruct Hrs1 as [Ht Hinv Hz Hbd (dv & atk & Hc)]. split; auto.
+    exists dv, atk. eapply cinv_U_equiv; [exact Hc|]. intros a Ha. rewrite filter_In.
+    assert (Hl : has af1 a = true).
+    { destruct Ha as [Ha|Ha]; [|exact Ha]. pose proof (proj2 (tables_ok_split L af1 e1) Ht) as Ht'.
+      apply (t_live L af1 e1 Ht'), (t_sel_live L af1 e1 Ht'), Ha. }
+    tauto. }
+  destruct (reencode_loop_RS af1 _ _ _ _ _ Hrs2 eq_refl E2) as [Hrs3 Hu3].
+  exists (enc_enable e2 false). cbn [buf_with b_enc]. split; [reflexivity|].
+  split; [apply RS_enable; exact Hrs3|reflexivity].
+Qed.
+
 End DynInv.
